@@ -86,11 +86,12 @@ def build_docs(docnames, tmp):
     names = list(docnames.values())
     page = colordocs.new_shared_page() if sum(1 for d in names if d in colordocs.SHARED_PAGE) >= 2 else None
     sub = colordocs.new_shared_subline() if sum(1 for d in names if d in colordocs.SHARED_SUBLINE) >= 2 else None
+    notes = colordocs.new_shared_notes() if sum(1 for d in names if d in colordocs.SHARED_NOTES) >= 2 else None
     body = None
     fams = {colordocs.SHARED_FAMILY[d] for d in names if d in colordocs.SHARED_FAMILY}
     if len(fams) == 1 and sum(1 for d in names if d in colordocs.SHARED_FAMILY) >= 2:
         body = colordocs.new_shared_body(fams.pop())
-    return {t: colordocs.build_pool_doc(d, tmpdir=os.path.join(tmp, t), shared_page=page, shared_subline=sub, shared_body=body)
+    return {t: colordocs.build_pool_doc(d, tmpdir=os.path.join(tmp, t), shared_page=page, shared_subline=sub, shared_body=body, shared_notes=notes)
             for t, d in docnames.items()}
 
 
